@@ -29,7 +29,8 @@ EXPLANATION = (
     'NONE exactly as named (T1); cumulative-sum clipping uses min with max '
     'and max with min (P2) and rebuilds bias/heights by first differences; '
     'Dykstra roll-back bookkeeping is paired per key (L4).  The affine '
-    'identities of the bound projection (L2) are decided under C08.')
+    'identities of the bound projection (L2) are decided under C08.'
+    ' Also decided: each bound of NaiveBoundsConstraints is clipped under its own guard (K3); in all 72 (monotonicity, convexity, min kind, max kind) configurations the strictly finalised kernel depends on every configured bound (K4, influence analysis through the negate-and-swap recursion); convexity group g is projected whenever g + 2 heights exist (T2).')
 ASSUMPTIONS = ['tf.maximum/minimum/cumsum/concat semantics',
                'Keras re-applies the constraint after each update']
 
